@@ -493,6 +493,13 @@ func drawTriangles(t *rapid.T) ([]tri3, []string) {
 		if rapid.IntRange(0, 9).Draw(t, "degenerate") == 0 {
 			tr[rapid.IntRange(0, 2).Draw(t, "dk")] = tr[rapid.IntRange(0, 2).Draw(t, "dk2")]
 		}
+		if i == 0 && rapid.IntRange(0, 5).Draw(t, "origin-first") == 0 {
+			// the very first vertex of the stream is the origin (what a zero-valued "last vertex" stands for),
+			// spelled 0, -0 or with a magnitude that underflows in float32
+			z := rapid.SampledFrom([]float64{0, math.Copysign(0, -1), 1e-60, -1e-50}).Draw(t, "origin-zero")
+			tr[0] = [3]float64{z, 0, z}
+			classes["origin-is-the-first-vertex"] = true
+		}
 		if tr[0] == tr[1] || tr[1] == tr[2] || tr[0] == tr[2] {
 			classes["degenerate-triangle"] = true
 		}
